@@ -45,5 +45,8 @@ contract(
                        and is_bool(result.pre_processor_error[j]) and is_bool(result.callable_error[j])
                        and is_bool(result.callable_false[j])),
     raises={},
+    returns=Obj("valida.data:FilteredData", fresh=True, result=ListOf(fresh=True), pre_processor_error=ListOf(fresh=True),
+                callable_error=ListOf(fresh=True), callable_false=ListOf(fresh=True), concrete_paths=Const(None), processed=ListOf(fresh=True)),
+    result_aliases=dict(source="data", condition="self"),
     serves=["C01", "C07", "C08"],
 )
